@@ -102,8 +102,8 @@ static double* extbuf(int which, int d, bool ideal) { double* base = g_pool[whic
 
 static long long g_idx = 0;
 
-struct CaseDesc { int kind, op; unsigned flags; int target, alias, d; bool ideal; int probeset; };
-static std::string cjson(const CaseDesc& c) { return J().str("statement", std::string(KINDNAME[c.kind]) + OPNAME[c.op] + (c.kind == K_CONSTRUCT ? ")" : "")).i("guarantees", c.flags).str("target", c.kind == K_CONSTRUCT ? "new object" : TNAME[c.target]).str("alias", PNAME[c.alias]).i("d", c.d).i("ideal_alignment", c.ideal).i("probes", c.probeset).done(); }
+struct CaseDesc { int kind, op; unsigned flags; int target, alias, d; bool ideal; int probeset; int opstore; };   // opstore: 0 both operands self-owned, 1 a externally backed, 2 b externally backed (no aliasing with the target)
+static std::string cjson(const CaseDesc& c) { return J().str("statement", std::string(KINDNAME[c.kind]) + OPNAME[c.op] + (c.kind == K_CONSTRUCT ? ")" : "")).i("guarantees", c.flags).str("target", c.kind == K_CONSTRUCT ? "new object" : TNAME[c.target]).str("alias", PNAME[c.alias]).i("d", c.d).i("ideal_alignment", c.ideal).i("probes", c.probeset).i("operand_storage", c.opstore).done(); }
 
 static void run_case(const CaseDesc& c) {
   int d = c.d, n = d * d, dother = (d % 5) + 2; if (dother == d) dother = (d == 2) ? 3 : 2;
@@ -133,12 +133,14 @@ static void run_case(const CaseDesc& c) {
   // operand a
   if (shares_a) { for (int k = 0; k < n; k++) vbuf[k] = av[k]; A.reset(new SU_vector(d, vbuf)); }
   else if (target_ext && v_is_a) { for (int k = 0; k < n; k++) vbuf[k] = av[k]; A.reset(new SU_vector(d, vbuf)); }
+  else if (c.opstore == 1) { double* ab = extbuf(1, d, true); for (int k = 0; k < n; k++) ab[k] = av[k]; A.reset(new SU_vector(d, ab)); }
   else A.reset(new SU_vector(mkvec(d, av)));
   // operand b
   SU_vector* bp;
   if (a_is_b) bp = A.get();
   else if (shares_b) { for (int k = 0; k < n; k++) vbuf[k] = bv[k]; Bv.reset(new SU_vector(d, vbuf)); bp = Bv.get(); }
   else if (target_ext && v_is_b && !v_is_a) { for (int k = 0; k < n; k++) vbuf[k] = bv[k]; Bv.reset(new SU_vector(d, vbuf)); bp = Bv.get(); }
+  else if (c.opstore == 2) { double* bb = extbuf(2, d, true); for (int k = 0; k < n; k++) bb[k] = bv[k]; Bv.reset(new SU_vector(d, bb)); bp = Bv.get(); }
   else { Bv.reset(new SU_vector(mkvec(d, bv))); bp = Bv.get(); }
   // target
   SU_vector* vp = nullptr; alignas(16) unsigned char raw[sizeof(SU_vector)];
@@ -208,6 +210,17 @@ static void run_case(const CaseDesc& c) {
   bool a_alias = v_is_a || shares_a || (a_is_b && (v_is_b || shares_b)), b_alias = v_is_b || shares_b || (a_is_b && (v_is_a || shares_a));
   if (!op_rv_a(c.op) && !a_alias && !(a_is_b && op_rv_b(c.op))) { if (!(comps(*A) == a_before)) violation("operand-a-modified:" + sig_shape, "{\"case\":" + cjson(c) + "}"); }
   if (!unary && !op_rv_b(c.op) && !b_alias && !(a_is_b && op_rv_a(c.op))) { if (!(comps(*bp) == b_before)) violation("operand-b-modified:" + sig_shape, "{\"case\":" + cjson(c) + "}"); }
+  // what the result believes about its own storage must agree with where its components live: a vector on a user buffer
+  // refuses a size-changing assignment, any other vector accepts it (this is the "only ... externally backed storage ... fails"
+  // clause applied to the statement that follows)
+  {
+    const double* rp = &(*res)[0];
+    bool on_user_buffer = rp >= &g_pool[0][0] && rp < &g_pool[0][0] + sizeof(g_pool) / sizeof(double);
+    bool refused = false; SU_vector other(mkvec(dother, scaled(probe(dother, 0), 0.5)));
+    try { *res = other; } catch (const std::runtime_error&) { refused = true; }
+    if (refused != on_user_buffer) violation(std::string(refused ? "own-storage-result-refuses-resize:" : "external-result-silently-detached:") + sig_shape, "{\"case\":" + cjson(c) + "}");
+    else if (!refused && !((int)res->Dim() == dother && comps(*res) == comps(other))) violation("follow-up-assignment-wrong-value:" + sig_shape, "{\"case\":" + cjson(c) + "}");
+  }
   if (c.kind == K_CONSTRUCT) res->~SU_vector();
 }
 
@@ -246,6 +259,7 @@ int main(int argc, char** argv) {
           if ((caseno++ % ar.nshards) != ar.shard) continue;
           CaseDesc c; memset(&c, 0, sizeof c); c.kind = kind; c.op = op; c.flags = fl; c.target = target; c.alias = alias; c.d = d; c.ideal = ideal; c.probeset = ps;
           run_case(c);
+          if (alias == P_NONE && ps == 0 && !(fl & detail::AlignedStorage)) for (int os = 1; os <= (unary ? 1 : 2); os++) { c.opstore = os; run_case(c); }
         }
       }
     }
